@@ -127,8 +127,8 @@ def norm_key(k):
     return k
 
 
-def run_world(F, f, small, signs, wsign):
-    je = J.JetEval(F, f, J.World(small, signs), make_seeds(f, wsign))
+def run_world(F, f, small, signs, wsign, theta=None, eps_val=None):
+    je = J.JetEval(F, f, J.World(small, signs, theta=theta, eps_val=eps_val), make_seeds(f, wsign))
     ret = je.run()
     return je, ret
 
@@ -327,6 +327,36 @@ def analyse_function(rep, prop, F, f, scalar, kind):
                 rep.broke("R-JET: switch quantity %s at %s:%s is not a power of the rotation magnitude" % (q, site0, ln))
                 return n_obs
         th_s = max(ths)
+        # R-ROUND in the mixed worlds between two switch-overs of the same function: for theta in [t_i, t_(i+1)) the
+        # switches with switch-over <= t_i are on their closed-form side, the others on their small-angle side
+        cuts = sorted(set(float("%.6g" % t) for t in ths))
+        for ci in range(len(cuts) - 1):
+            lo, hi = cuts[ci], cuts[ci + 1]
+            if hi <= lo * 1.001:
+                continue
+            try:
+                jm, rm = run_world(F, f, False, signs, wsign, theta=lo * 1.001, eps_val=EPS_VAL[scalar])
+            except (J.Unknown, J.NeedSign) as e:
+                rep.observations.append("R-ROUND: mixed world [%g, %g) of %s not interpreted (%s)" % (lo, hi, site0, e))
+                continue
+            mixed = []
+            qm = quaternion_of(rm)
+            if qm is not None:
+                mixed += [("return[%d]" % i, a) for i, a in enumerate(qm)]
+            elif isinstance(rm, tuple) and rm and rm[0] == "ctor":
+                mixed += [("return[%d]" % i, a) for i, a in enumerate(rm[2]) if isinstance(a, sp.Expr)]
+            elif isinstance(rm, sp.Expr):
+                mixed.append(("return", rm))
+            mixed += [(norm_key(k)[:60], v) for k, v in sorted(jm.targets.items()) if isinstance(v, sp.Expr)]
+            om = dict(jm.orders)
+            for what, a in mixed:
+                if OBS_FILTER == "return" and not what.startswith("return"):
+                    continue
+                if OBS_FILTER == "outputs" and what.startswith("return"):
+                    continue
+                clause = "value" if (kind in ("exp", "log", "value") and what.startswith("return")) or kind == "value" else "jac"
+                n_obs += round_obligation(rep, prop, f, "%s:%s%s:mixed[%.3g,%.3g)" % (site0, what, case, lo, hi), pos(a), om, lo,
+                                          scalar, CLAUSE_OVERRIDE or clause, th_max=hi)
         # R-DIV (closed-form side of an entire function): a denominator may vanish only at theta = 0
         if ENTIRE:
             for den in jl.divisions:
@@ -410,7 +440,7 @@ def analyse_function(rep, prop, F, f, scalar, kind):
             a, b = pos(a), pos(b)
             if a == b:
                 continue
-            n_obs += round_obligation(rep, prop, f, "%s:%s%s" % (site0, what, case), a, orders, th_s, scalar)
+            n_obs += round_obligation(rep, prop, f, "%s:%s%s" % (site0, what, case), a, orders, th_s, scalar, CLAUSE_OVERRIDE or clause)
             n_obs += 1
             site = "%s:%s%s:%s" % (site0, what, case, scalar)
             try:
@@ -436,33 +466,38 @@ def analyse_function(rep, prop, F, f, scalar, kind):
 ROUND_TOL = {"double": 1e-6}     # the accuracy the property statements name (C02, C05, C06: relative error about 1e-6 in double)
 
 
-def round_obligation(rep, prop, f, site, a, orders, th_s, scalar):
+def round_obligation(rep, prop, f, site, a, orders, th_s, scalar, clause="jac", th_max=0.1):
     """R-ROUND: first-order rounding-error bound of the closed-form arm at its switch-over (engine/rounding.py)."""
     from . import rounding as R
-    if scalar not in ROUND_TOL:
-        return 0
+    if scalar == "float":
+        # C12: "single-precision instantiations agree with double ones to single-precision accuracy" - armed for the
+        # values of exp / log only, with a wide margin (1e-4 is about 1700 unit round-offs)
+        if clause != "value":
+            return 0
+        site += ":float"
+    round_tol = {"double": ROUND_TOL["double"], "float": 1e-4}[scalar]
     try:
         # the flush-to-zero regime makes the bound non-monotone in theta: take the worst over a ladder of rotation
         # magnitudes from the switch-over up to 0.1 (half-decade steps)
         val, err, worst, th_at = None, -1.0, None, th_s
         t = th_s
-        while t <= 0.1 or val is None:
+        while t <= th_max or val is None:
             v_, e_, w_ = R.bound(a, J.TH, t, orders, scalar)
             if e_ / max(1.0, abs(v_)) > err / max(1.0, abs(val or 0.0)):
                 val, err, worst, th_at = v_, e_, w_, t
-            t *= 10 ** 0.5
+            t *= 10 ** (0.1 if C.tier() == "thorough" else 0.5)   # thorough: tenth-decade ladder
         th_s = th_at
     except R.NotModelled as e:
         rep.observations.append("R-ROUND: %s not modelled (%s)" % (site, e))
         return 0
-    tol = ROUND_TOL[scalar] * max(1.0, abs(val))
+    tol = round_tol * max(1.0, abs(val))
     # the order of magnitude of the bound is part of the site: a recorded finding does not cover the same cell getting worse
     import math
     mag = "1e%+03d" % int(round(math.log10(err))) if err > 0 else "0"
     rep.obligation(err <= tol, lambda: C.Finding(
         prop, "R-ROUND", "%s:~%s" % (site, mag),
         "evaluated in %s at |theta| = %.3g (worst of a half-decade ladder from its switch-over up to 0.1) the closed-form arm has a first-order rounding-error bound of %.2e "
-        "(value %.3g; the sum %s cancels %.1e of its leading magnitude); the property allows about %.0e" % (scalar, th_s, err, val, worst[1], worst[0], ROUND_TOL[scalar]),
+        "(value %.3g; the sum %s cancels %.1e of its leading magnitude); the property allows about %.0e" % (scalar, th_s, err, val, worst[1], worst[0], round_tol),
         f["file"], f["line"]))
     rep.sample({"round_site": site, "theta_s": th_s, "value": val, "rounding_bound": err, "tolerance": tol, "worst_sum": worst[1]}, limit=60)
     return 1
